@@ -37,6 +37,7 @@ def run(repo: Repo, chk: Check) -> None:
     no_skip(repo, chk)
     xdma_by_type(repo, chk)
     all_extensions(repo, chk)
+    kernel_tables(repo, chk)
     order(repo, chk)
 
 
@@ -59,7 +60,9 @@ def _paths(stmts: list[ast.stmt], is_event) -> list[tuple[list[tuple[ast.expr, b
             return
         if isinstance(st, ast.Raise):
             return
-        if isinstance(st, (ast.Try, ast.With, ast.Match, ast.While)):
+        if isinstance(st, ast.While) and is_event(st):
+            pass  # a loop the caller reads as one event (draining the pending list)
+        elif isinstance(st, (ast.Try, ast.With, ast.Match, ast.While)):
             raise AnalysisError(f"line {st.lineno}: {type(st).__name__} inside the dispatcher loop is not modelled")
         e = set(ev)
         for lab in is_event(st):
@@ -121,8 +124,10 @@ def no_skip(repo: Repo, chk: Check) -> None:
                 labs.append("flush")
             elif isinstance(v, (ast.List, ast.Tuple)) and len(v.elts) == 1 and isinstance(v.elts[0], ast.Name) and v.elts[0].id == opv:
                 labs += ["flush", "collect"]
-        if isinstance(st, ast.For):
-            pass
+        if isinstance(st, ast.While) and norm.any_match(["$l", "len($l)", "len($l) > 0", "len($l) != 0"], st.test, {"l": lst}) is not None and not any(
+                isinstance(x, (ast.Break, ast.Return)) for x in ast.walk(st)) and any(
+                isinstance(x, ast.Call) and norm.any_match(["$l.pop()", "$l.pop($k)"], x, {"l": lst}) is not None for b_ in st.body for x in ast.walk(b_)):
+            labs.append("flush")  # `while pending: pending.pop(..)` runs until the list is empty
         return labs
 
     paths = _paths(loop.body, is_event)
@@ -395,6 +400,19 @@ def wrap(repo: Repo, chk: Check) -> None:
                     sites_h = [c for c in ast.walk(f.node) if isinstance(c, ast.Call) and isinstance(c.func, ast.Name) and c.func.id == h.name]
                     if sites_h and all(len(c.args) > k_ and ast.unparse(c.args[k_]) == lst for c in sites_h):
                         move_stmt = n
+    drain_var = drain_front = None
+    if move_stmt is None:
+        # the list is drained while it is moved: `while pending: o = pending.pop(..); o.detach(); ..` - pop(0) takes the ops in list order,
+        # pop() takes them last first; the drained list needs no separate reset
+        for n in ast.walk(f.node):
+            if isinstance(n, ast.While) and norm.any_match(["$l", "len($l)", "len($l) > 0", "len($l) != 0"], n.test, {"l": lst}) is not None \
+                    and any(isinstance(x, ast.Call) and callee_name(x) == "detach" for x in ast.walk(n)):
+                pops = [st for st in n.body if isinstance(st, ast.Assign) and isinstance(st.targets[0], ast.Name) and norm.any_match(["$l.pop()", "$l.pop($k)"], st.value, {"l": lst}) is not None]
+                if len(pops) == 1 and pops[0] is n.body[0]:
+                    move_stmt = n
+                    drain_var = pops[0].targets[0].id  # type: ignore[union-attr]
+                    k_ = pops[0].value.args[0] if pops[0].value.args else None  # type: ignore[union-attr]
+                    drain_front = isinstance(k_, ast.Constant) and k_.value == 0
     if move_stmt is None:
         raise AnalysisError(f"{f.where}: the loop moving the collected ops was not found")
     def _pos(st: ast.AST) -> tuple:
@@ -406,7 +424,7 @@ def wrap(repo: Repo, chk: Check) -> None:
               and ast.unparse(s.node.targets[0] if isinstance(s.node, ast.Assign) else s.node.target) == lst]
     resets += [s for s in fl.stmts(ast.Expr) if s.reachable and s.loops and isinstance(s.node.value, ast.Call)
                and norm.match(T("$l.clear()"), s.node.value, {"l": lst}) is not None]
-    chk.result(bool(resets) and all(has_event(s, "moved") for s in resets), "C14.wrap", f"{f.key}:flush-before-reset", resets[0].where() if resets else f.where,
+    chk.result((bool(resets) or drain_var is not None) and all(has_event(s, "moved") for s in resets), "C14.wrap", f"{f.key}:flush-before-reset", resets[0].where() if resets else f.where,
                "the pending list is only reset after its ops were moved into the scf.if",
                "the pending list can be reset without moving its ops: those ops stay unguarded and run on every core")
     # flush condition
@@ -445,10 +463,15 @@ def wrap(repo: Repo, chk: Check) -> None:
     ok_order = False
     for s in ins:
         lp = [l for l in s.loops if _pos(l) == _pos(move_stmt)]
-        if lp and len(s.node.args) > 1 and depends_on(s.expand(s.node.args[1]), "InsertPoint.before($y)") and ast.unparse(s.node.args[0]) == ast.unparse(lp[0].target):
+        if not (lp and len(s.node.args) > 1 and depends_on(s.expand(s.node.args[1]), "InsertPoint.before($y)")):
+            continue
+        if drain_var is not None:
+            ok_order = ok_order or (ast.unparse(s.node.args[0]) == drain_var and bool(drain_front))
+        elif ast.unparse(s.node.args[0]) == ast.unparse(lp[0].target):
             ok_order = True
     chk.result(ok_order, "C14.wrap", f"{f.key}:order", f.where, "ops are re-inserted before the scf.yield in list order (original order)",
-               "collected ops are not re-inserted in list order before the yield")
+               "collected ops are not re-inserted in list order before the yield" + (
+                   f": `{lst}.pop()` takes the group last op first, so a group of two or more ops runs in reverse order inside its guard" if drain_var is not None and not drain_front else ""))
     walks = [s for s in fl.stmts(ast.For) if s.reachable and norm.any_match(["$b.walk(region_first=True)"], s.node.iter, {"b": block_p}) is not None]
     chk.result(bool(walks), "C14.wrap", f"{f.key}:walk", f.where, "every op nested in the block is visited (walk, regions first so that a region's terminator flushes its group)",
                "the dispatcher no longer walks all nested ops of the block with region_first=True")
@@ -574,6 +597,35 @@ def disjoint(repo: Repo, chk: Check) -> None:
                         ok = True
         chk.result(ok, "C14.disjoint", f"{f.key}:base-kind", f.where, f"{cls[0]} is unconditionally dispatched by {qual}",
                    f"{cls[0]} is no longer unconditionally dispatched by {qual}")
+
+
+ONE_SHOT = ("reversed", "iter", "map", "filter", "zip", "enumerate", "chain", "islice")
+
+
+def kernel_tables(repo: Repo, chk: Check) -> None:
+    """the kernel an extension / accelerator supports is a table that is consulted for every op of every function (`list(self.operand_types) == ..`):
+    its operand types have to be re-iterable. A one-shot iterator (reversed(..), map(..), a generator expression) gives its elements to the first
+    query only; from the second query on the kernel matches nothing, the region is classified for no core and runs on all of them"""
+    chk.rule("C14.kernel-tables", "every SupportedKernel is built with a re-iterable sequence of operand types (literal, name of one, tuple(..) / list(..)), never "
+             "with a one-shot iterator", floor=8)
+    n_ = 0
+    for rel, m in sorted(repo.modules.items()):
+        consts = getattr(m, "consts", {})
+        for c in ast.walk(m.tree):
+            if not (isinstance(c, ast.Call) and callee_name(c) == "SupportedKernel"):
+                continue
+            arg = c.args[1] if len(c.args) > 1 else next((k.value for k in c.keywords if k.arg == "operand_types"), None)
+            if arg is None:
+                continue
+            n_ += 1
+            a = arg
+            if isinstance(a, ast.Name) and isinstance(consts.get(a.id), ast.AST):
+                a = consts[a.id]
+            one_shot = isinstance(a, ast.GeneratorExp) or (isinstance(a, ast.Call) and isinstance(a.func, ast.Name) and a.func.id in ONE_SHOT)
+            chk.result(not one_shot, "C14.kernel-tables", f"{rel}:SupportedKernel#{n_}", f"{rel}:{c.lineno}",
+                       "operand types are a re-iterable sequence",
+                       f"operand types are `{ast.unparse(arg)[:60]}`, a one-shot iterator: `is_same_kernel` consumes it on the first query, every later op of that "
+                       "kernel matches no extension, is dispatched to no core and runs on all cores")
 
 
 def order(repo: Repo, chk: Check) -> None:
